@@ -575,14 +575,19 @@ theorem makeAtom_frame (c : CS) (cond : List Int) (named : Bool) :
     · exact ⟨rest_output h, by show outsOf (c.mapAtom (cond.headD 0).natAbs).1.out = _; rw [rest_out h]⟩
   · exact auxAtom_frame c cond
 
-structure K (c : CS) (O : List (List Nat × List Int)) (defs : List (Nat × Body)) : Prop where
+/-- the pending output table against the output directives `O` given in this step; `base` = what earlier steps have emitted
+    (`[]` in a single step; Lemmas/ConvertStepsOut.lean uses it for several steps) -/
+structure K (c : CS) (O : List (List Nat × List Int)) (defs : List (Nat × Body)) (base : List (List Nat × List Int) := [])
+    (E : Nat → List Int → Prop := fun _ _ => False) : Prop where
   fwd : ∀ o ∈ O, ∃ n, (n, o.1) ∈ c.output ∧ Rep c defs n o.2
   bwd : ∀ p ∈ c.output, ∃ cond, (p.2, cond) ∈ O ∧ Rep c defs p.1 cond
-  noout : outsOf c.out = []
+  noout : outsOf c.out = base
+  /-- atoms that stand for conditions since EARLIER steps keep doing so (`E n cond`: a relation fixed at the start of the step; empty in a single step) -/
+  keep : ∀ n cond, E n cond → Rep c defs n cond
 
-theorem K.of {c c' : CS} {O defs defs'} (hk : K c O defs) (hs : Steps (abs c) (abs c')) (hi : Inv (abs c)) (ho : c'.output = c.output)
-    (hout : outsOf c'.out = outsOf c.out) (hd : ∀ d ∈ defs, d ∈ defs') : K c' O defs' := by
-  refine ⟨?_, ?_, hout.trans hk.noout⟩
+theorem K.of {c c' : CS} {O defs defs' base E} (hk : K c O defs base E) (hs : Steps (abs c) (abs c')) (hi : Inv (abs c)) (ho : c'.output = c.output)
+    (hout : outsOf c'.out = outsOf c.out) (hd : ∀ d ∈ defs, d ∈ defs') : K c' O defs' base E := by
+  refine ⟨?_, ?_, hout.trans hk.noout, fun n cond h => (hk.keep n cond h).mono hs hi hd⟩
   · intro o ho'
     obtain ⟨n, h1, h2⟩ := hk.fwd o ho'
     exact ⟨n, ho ▸ h1, h2.mono hs hi hd⟩
@@ -642,15 +647,15 @@ theorem apply_frame_sum (c : CS) (hf : c.fail = false) (ht : Nat) (head : List N
   · exact ⟨rfl, rfl⟩
 
 /-- showing the atom of a condition under a name (output directives; the helper name of an edge) -/
-theorem out_like {c : CS} {P O defs} (hj : J c P defs) (hk : K c O defs) (str : List Nat) (cond : List Int) (hx : ∀ l ∈ cond, l ≠ 0) (hash : Bool) :
+theorem out_like {c : CS} {P O defs base E} (hj : J c P defs) (hk : K c O defs base E) (str : List Nat) (cond : List Int) (hx : ∀ l ∈ cond, l ≠ 0) (hash : Bool) :
     ∃ defs', J ((c.makeAtom cond true).1.addOutput (c.makeAtom cond true).2 str hash) P defs' ∧
-      K ((c.makeAtom cond true).1.addOutput (c.makeAtom cond true).2 str hash) (O ++ [(str, cond)]) defs' := by
+      K ((c.makeAtom cond true).1.addOutput (c.makeAtom cond true).2 str hash) (O ++ [(str, cond)]) defs' base E := by
   obtain ⟨defs', hJ, hsub, hrep⟩ := hj.makeAtom cond true hx
   have hfr := makeAtom_frame c cond true
   refine ⟨defs', hJ.of (by simp; exact .refl _) rfl rfl rfl rfl, ?_⟩
   have hs := makeAtom_steps c cond true
-  have hk1 : K (c.makeAtom cond true).1 O defs' := hk.of hs hj.inv hfr.1 hfr.2 hsub
-  refine ⟨?_, ?_, hk1.noout⟩
+  have hk1 : K (c.makeAtom cond true).1 O defs' base E := hk.of hs hj.inv hfr.1 hfr.2 hsub
+  refine ⟨?_, ?_, hk1.noout, fun n cd h => hk1.keep n cd h⟩
   · intro o ho
     rcases List.mem_append.mp ho with h | h
     · obtain ⟨n, h1, h2⟩ := hk1.fwd o h
@@ -671,13 +676,13 @@ theorem J.through {c : CS} {P defs} (hj : J c P defs) (x : Call) (hx : inRule x 
   · exact hj.emit x hx
   · exact hj
 
-theorem K.through {c : CS} {O defs} (hk : K c O defs) (hi : Inv (abs c)) (x : Call) (hx : outOf x = none) : K (pass c x) O defs := by
+theorem K.through {c : CS} {O defs base E} (hk : K c O defs base E) (hi : Inv (abs c)) (x : Call) (hx : outOf x = none) : K (pass c x) O defs base E := by
   unfold pass; split
   · exact hk.of (.refl _) hi rfl (by simp [CS.emit, outsOf_append, outsOf, hx]) (fun d hd => hd)
   · exact hk
 
-theorem apply_plain {c : CS} {P O defs} (hj : J c P defs) (hk : K c O defs) (x : Call) (hx : PlainOk x) :
-    ∃ defs', J (c.apply x) (P ++ (rulesOf [x]).filter kept) defs' ∧ K (c.apply x) (O ++ srcOuts [x]) defs' := by
+theorem apply_plain {c : CS} {P O defs base E} (hj : J c P defs) (hk : K c O defs base E) (x : Call) (hx : PlainOk x) :
+    ∃ defs', J (c.apply x) (P ++ (rulesOf [x]).filter kept) defs' ∧ K (c.apply x) (O ++ srcOuts [x]) defs' base E := by
   cases x with
   | rule ht head body =>
     have hf := apply_frame_rule c hj.nofail ht head body
@@ -745,8 +750,8 @@ theorem apply_plain {c : CS} {P O defs} (hj : J c P defs) (hk : K c O defs) (x :
       hk.of hs hj.inv hfr.2.2.2.2 (by rw [hfr.2.2.2.1]) (fun d hd => hd)⟩
   | _ => exact absurd hx (by simp [PlainOk])
 
-theorem run_plain {c : CS} {P O defs} (hj : J c P defs) (hk : K c O defs) (ds : List Call) (hx : ∀ d ∈ ds, PlainOk d) :
-    ∃ defs', J (ds.foldl CS.apply c) (P ++ (rulesOf ds).filter kept) defs' ∧ K (ds.foldl CS.apply c) (O ++ srcOuts ds) defs' := by
+theorem run_plain {c : CS} {P O defs base E} (hj : J c P defs) (hk : K c O defs base E) (ds : List Call) (hx : ∀ d ∈ ds, PlainOk d) :
+    ∃ defs', J (ds.foldl CS.apply c) (P ++ (rulesOf ds).filter kept) defs' ∧ K (ds.foldl CS.apply c) (O ++ srcOuts ds) defs' base E := by
   induction ds generalizing c P O defs with
   | nil => exact ⟨defs, by simpa [rulesOf] using hj, by simpa [srcOuts] using hk⟩
   | cons d r ih =>
